@@ -333,7 +333,19 @@ impl<M: wire::Decode> wire::Decode for Frame<M> {
             Ok(StreamKind::Gossip) => {
                 let data = varint::payload::decode(reader)?;
                 let mut cursor = io::Cursor::new(data);
-                let msg = M::decode(&mut cursor)?;
+                // Nb. The payload is complete at this point. Running out of bytes
+                // while decoding the message means that the message is invalid,
+                // not that more data is needed.
+                let msg = M::decode(&mut cursor).map_err(|err| {
+                    if err.is_eof() {
+                        wire::Error::Io(io::Error::new(
+                            io::ErrorKind::InvalidData,
+                            "gossip message is truncated",
+                        ))
+                    } else {
+                        err
+                    }
+                })?;
                 let frame = Frame {
                     version,
                     stream,
